@@ -52,6 +52,26 @@ def run(plan):
             if got0 != [reply]:
                 res.fail("clean exchange returned wrong frames", repr(got0))
                 return
+        if plan.get("as_extra"):
+            # the altered packet is not the awaited response but an extra one, drained by the next exchange
+            dev.script = [{"post_mutated": plan["mutate"]}]
+            try:
+                g1 = await lan.send(b"\xaa\x01", retries=1)
+                await asyncio.sleep(0.25)
+                dev.script = []
+                g2 = await lan.send(b"\xaa\x02", retries=1)
+            except Exception as e:
+                if not isinstance(e, w.ns.lan.ProtocolError):
+                    res.fail(f"altered extra packet raised {type(e).__name__} instead of ProtocolError", repr(e))
+                    return
+                g1, g2 = [reply], [reply]
+            delivered_changed[0] = True
+            for g in (g1, g2):
+                if any(f != reply for f in g):
+                    res.fail("altered packet accepted and decoded to a different frame",
+                             f"an extra altered packet surfaced as {[f.hex()[:40] for f in g if f != reply]}")
+                    return
+            return
         dev.script = [{"mutate": plan["mutate"]}]
         PE = w.ns.lan.ProtocolError
         try:
@@ -98,7 +118,7 @@ def run(plan):
         res.fail(f"liveness: {type(e).__name__}", str(e))
     res.take(w)
     res.add_fired(dev.fired)
-    res.key = (plan["reply"], repr(plan["mutate"]), bool(plan.get("warm")))
+    res.key = (plan["reply"], repr(plan["mutate"]), bool(plan.get("warm")), bool(plan.get("as_extra")))
     res.nontrivial = delivered_changed[0]
     return res
 
@@ -141,6 +161,16 @@ def space(tier):
         return {"config": base, "reply": frame_for(L).hex(), "mutate": {"kind": "multi", "edits": [[p, delta]]}}
     sp.add("byte_subst", len(pos_index) * nvals, substs, exhaustive=(nvals == 255))
 
+    BOUNDARY = [0x00, 0x01, 0xFF, 0x5A, 0xAA, 0x83, 0x70, 0x10, 0x20, 0x80]
+
+    def subst_boundary(j, rng):
+        L, p = pos_index[j // len(BOUNDARY) % len(pos_index)]
+        v = BOUNDARY[j % len(BOUNDARY)]
+        k = j // (len(BOUNDARY) * len(pos_index))
+        return {"config": base, "reply": frame_for(L).hex(), "mutate": {"kind": "byte", "pos": p, "val": v},
+                "as_extra": k % 2 == 1, "warm": k % 4 == 2}
+    sp.add("byte_subst_boundary_values", len(pos_index) * len(BOUNDARY) * 2, subst_boundary, exhaustive=True)
+
     def multi(j, rng):
         L = rng.choice(LENS + [rng.randint(0, 255)])
         n = plen(L)
@@ -160,6 +190,6 @@ def space(tier):
         else:
             m = {"kind": "multi", "edits": [[rng.randrange(n), rng.randrange(1, 256)]]}
         return {"config": dict(base, device_id=rng.getrandbits(64)), "reply": rand_bytes(rng, L).hex(), "mutate": m,
-                "warm": rng.random() < 0.5}
+                "warm": rng.random() < 0.5, "as_extra": rng.random() < 0.25}
     sp.add("random_packets", 3000 if tier == "quick" else 400_000, rnd)
     return sp
